@@ -31,6 +31,9 @@ pub const O_BOUNDS: u32 = 1 << 9;
 /// to wait for: an operation that exceeds the budget never returns)
 pub const O_TERM: u32 = 1 << 10;
 pub const TERM_BUDGET: i64 = 4000;
+/// C15: after every step the cursor lies in [data_offset, capacity], the slices have the documented lengths and
+/// the readers around the cursor and the capacity decode the bytes below allocated() and refuse everything else
+pub const O_READERS: u32 = 1 << 11;
 
 thread_local! {
   static TERM_LEFT: std::cell::Cell<i64> = const { std::cell::Cell::new(0) };
@@ -94,6 +97,7 @@ pub fn prop_of(flag: u32) -> &'static str {
     O_REWIND => "C17",
     O_BOUNDS => "C04",
     O_TERM => "C07",
+    O_READERS => "C15",
     _ => "C??",
   }
 }
@@ -827,8 +831,19 @@ impl<A: Subject> Runner<A> {
           Pos::End(n) => ArenaPosition::End(n),
           Pos::Cur(d) => ArenaPosition::Current(d),
         };
+        // "and changes nothing else": every byte of the arena, above the cursor too (a forward seek hands nothing
+        // out and a backward seek gives nothing back), except the cursor word of an in-image header
+        let img_pre: Vec<u8> = if or & O_REWIND != 0 { a.memory().to_vec() } else { vec![] };
         unsafe { a.rewind(pos) };
         let post = a.snap(64);
+        if or & O_REWIND != 0 {
+          let now = a.memory();
+          let d = self.cfg.data_offset();
+          let skip = if self.cfg.unified() { d - 16..d - 12 } else { 0..0 };
+          if let Some(i) = (0..now.len().min(img_pre.len())).find(|i| !skip.contains(i) && now[*i] != img_pre[*i]) {
+            v.push(Viol { flag: O_REWIND, class: "rewind-changed-bytes".into(), msg: format!("rewind({:?}) from {} changed byte {} of the arena: {:#04x} -> {:#04x}", p, pre.allocated, i, img_pre[i], now[i]) });
+          }
+        }
         if post.allocated != want {
           // keep the other oracles quiet after a misplaced cursor; C17 reports it
           self.tainted = true;
@@ -895,12 +910,80 @@ impl<A: Subject> Runner<A> {
     if or & O_DISCARDED != 0 && monotone && post.discarded < pre.discarded {
       v.push(Viol { flag: O_DISCARDED, class: "discarded-decreased".into(), msg: format!("discarded() went {} -> {}", pre.discarded, post.discarded) });
     }
+    if or & O_READERS != 0 {
+      self.check_readers(v);
+    }
     // C16: the accessor reports the configured value until the caller sets another one (clear and rewind keep it)
     if or & O_LAYOUT != 0 {
       let want = self.min_in_force.unwrap_or(self.cfg.min_seg);
       if self.a.minimum_segment_size() != want || post.min_segment_size != want {
         v.push(Viol { flag: O_LAYOUT, class: "minimum-segment-size-accessor".into(), msg: format!("minimum_segment_size() = {} (header {}), in force: {}", self.a.minimum_segment_size(), post.min_segment_size, want) });
       }
+    }
+  }
+
+  fn check_readers(&self, v: &mut Vec<Viol>) {
+    let a = self.a;
+    let (al, cap, dof) = (a.allocated(), a.capacity(), a.data_offset());
+    let mut bad = vec![];
+    if al > cap || al < dof {
+      bad.push(format!("allocated() = {} outside [data_offset {}, capacity {}]", al, dof, cap));
+    }
+    if a.allocated_memory().len() != al || a.memory().len() != cap || a.data().len() != al.wrapping_sub(dof) {
+      bad.push(format!("allocated_memory {} data {} memory {} for allocated {} data_offset {} capacity {}", a.allocated_memory().len(), a.data().len(), a.memory().len(), al, dof, cap));
+    }
+    if al <= cap && bad.is_empty() {
+      let mem = a.memory();
+      let offs = (al.saturating_sub(17)..=al + 1).chain([cap.saturating_sub(1), cap, cap + 1, cap + 16]);
+      for off in offs {
+        match a.get_u8(off) {
+          Ok(x) => {
+            if off >= al || x != mem[off] {
+              bad.push(format!("get_u8({}) = Ok({:#x}) with allocated {}", off, x, al));
+            }
+          }
+          Err(Error::OutOfBounds { .. }) => {
+            if off < al {
+              bad.push(format!("get_u8({}) refused with allocated {}", off, al));
+            }
+          }
+          Err(e) => bad.push(format!("get_u8({}) failed with {}", off, e)),
+        }
+        match a.get_u64_le(off) {
+          Ok(x) => {
+            if off + 8 > al || x != u64::from_le_bytes(mem[off..off + 8].try_into().unwrap()) {
+              bad.push(format!("get_u64_le({}) = Ok({:#x}) with allocated {}", off, x, al));
+            }
+          }
+          Err(Error::OutOfBounds { .. }) => {
+            if off + 8 <= al {
+              bad.push(format!("get_u64_le({}) refused with allocated {}", off, al));
+            }
+          }
+          Err(e) => bad.push(format!("get_u64_le({}) failed with {}", off, e)),
+        }
+        match a.get_u128_be(off) {
+          Ok(x) => {
+            if off + 16 > al || x != u128::from_be_bytes(mem[off..off + 16].try_into().unwrap()) {
+              bad.push(format!("get_u128_be({}) = Ok({:#x}) with allocated {}", off, x, al));
+            }
+          }
+          Err(Error::OutOfBounds { .. }) => {
+            if off + 16 <= al {
+              bad.push(format!("get_u128_be({}) refused with allocated {}", off, al));
+            }
+          }
+          Err(e) => bad.push(format!("get_u128_be({}) failed with {}", off, e)),
+        }
+        if let Ok((n, _)) = a.get_u64_varint(off) {
+          if off + n > al {
+            bad.push(format!("get_u64_varint({}) consumed {} bytes with allocated {}", off, n, al));
+          }
+        }
+      }
+    }
+    for m in bad.into_iter().take(2) {
+      v.push(Viol { flag: O_READERS, class: "reader-bounds".into(), msg: m });
     }
   }
 
